@@ -414,11 +414,44 @@ fn classify(n: &WalkNode, scope: Scope, msg: &str, stealing: bool) -> Option<Str
         // known finding: per-partition statistics of a file scan stay Exact although sibling partitions share the files
         return Some("file-scan-partition-statistics-under-work-stealing".into());
     }
-    if column_stat && walk::subtree_has(&n.plan, &is_join) {
+    let partitioned_topk = |p: &Arc<dyn datafusion::physical_plan::ExecutionPlan>| {
+        let d = walk::one_line_full(p.as_ref());
+        p.name().starts_with("SortExec") && d.contains("TopK(fetch=") && d.contains("preserve_partitioning=[true]")
+    };
+    if !column_stat && walk::subtree_has(&n.plan, &partitioned_topk) {
+        // known finding: a partition-preserving TopK sort reports row counts as if it had one output partition and no shared threshold
+        return Some("partitioned-topk-sort-statistics".into());
+    }
+    if column_stat && is_join(&n.plan) {
         // known finding: joins hand their inputs' column statistics on unchanged (Exact included)
         return Some("join-output-keeps-exact-column-statistics".into());
     }
-    None
+    // every other root cause is keyed by (operator [+ qualifier], statistic): see known_findings.json
+    let stat = ["num_rows", "null_count", "min_value", "max_value", "sum_value", "distinct_count"].iter().find(|s| msg.contains(&format!("{s} is reported"))).copied().unwrap_or("statistic");
+    let stat = if stat == "min_value" || stat == "max_value" { "min_max" } else { stat };
+    let d = walk::one_line_full(n.plan.as_ref());
+    let qual = match n.name.as_str() {
+        "DataSourceExec" => format!(
+            "[{}{}{}]",
+            if d.contains("file_type=parquet") { "parquet" } else { "memory" },
+            if d.contains("limit=") || d.contains("fetch=") { "+limit" } else { "" },
+            if d.contains("CAST(") { "+cast" } else { "" }
+        ),
+        "ProjectionExec" => (if d.contains("CAST(") { "[cast]" } else { "" }).to_string(),
+        x if x.starts_with("SortExec") => (if d.contains("TopK(fetch=") { "[topk]" } else { "" }).to_string(),
+        "AggregateExec" => {
+            let mode = d.split("mode=").nth(1).and_then(|r| r.split(',').next()).unwrap_or("");
+            format!("[{mode}{}]", if d.contains("lim=[") { "+lim" } else { "" })
+        }
+        _ => String::new(),
+    };
+    let scope_s = match scope {
+        Scope::Partition => "partition-",
+        Scope::Registry => "registry-",
+        Scope::Whole => "",
+    };
+    let op = if n.name.starts_with("SortExec") { "SortExec" } else { n.name.as_str() };
+    Some(format!("exact-{scope_s}{stat}@{op}{qual}"))
 }
 
 // ---------------------------------------------------------------------------------------------
@@ -650,9 +683,22 @@ fn judge(case: &Case) -> Judged {
         Err(m) => findings.push(Finding { sig: None, msg: format!("{m}{}", describe()) }),
     }
     let mut f = Facts::default();
-    for n in &w.nodes {
-        for (scope, m) in check_node(n, &mut f) {
-            findings.push(Finding { sig: classify(n, scope, &m, stealing), msg: format!("{m}{}", describe()) });
+    let per_node: Vec<Vec<(Scope, String)>> = w.nodes.iter().map(|n| check_node(n, &mut f)).collect();
+    for (i, n) in w.nodes.iter().enumerate() {
+        if per_node[i].is_empty() {
+            continue;
+        }
+        // statistics flow upwards: a violation above a violating descendant is its consequence — only the lowest
+        // violating nodes (root causes) are reported
+        let prefix = if n.path.is_empty() { String::new() } else { format!("{}.", n.path) };
+        let below = w.nodes.iter().enumerate().any(|(k, d)| k != i && !per_node[k].is_empty() && d.path.len() > n.path.len() && d.path.starts_with(&prefix));
+        if below {
+            f.label("consequence-of-a-violation-below");
+            continue;
+        }
+        // one finding per node: the whole-node call first, then a partition, then the registry
+        if let Some((scope, m)) = per_node[i].first() {
+            findings.push(Finding { sig: classify(n, *scope, m, stealing), msg: format!("{m}{}", describe()) });
         }
     }
     let nt = f.nonleaf_exact > 0 || rewritten > 0;
